@@ -20,6 +20,12 @@
      != true; division or modulo by zero prints a message and yields void; INT64_MIN / -1 traps (SIGFPE kills nanoc).
    * string literals keep their escape sequences verbatim (the lexer does not translate them, and the evaluator prints
      the token text).
+   * array literal [e1, .., en] (AST_ARRAY_LITERAL): the FIRST element is evaluated once "to determine the element type",
+     then ALL elements, e1 included, are evaluated left to right and stored: e1 is evaluated twice.  [] is an empty
+     int array.  (at a i) = builtin_at: arguments left to right; an index outside 0 <= i < length prints
+     "Runtime Error: Array index ... out of bounds" and calls exit(1): nanoc itself ends there (IOob); a non-int index
+     or a non-array yields void.  (array_length a) of a non-array yields void.  Arrays are truthy; print_value writes
+     [e1, e2, ...].
    * an unbound name evaluates to void (message on stderr).  In the real process symbols left behind by the type
      checker sit BELOW the globals with void values; they are the [base] parameter of the run functions.
 
@@ -46,11 +52,12 @@ Inductive ires (A : Type) :=
   | IOk (a : A) (w : world)
   | ISigfpe                         (* INT64_MIN / -1 or % -1 inside nanoc: the compiler process is killed *)
   | IUnmodelled                     (* behaviour outside the model (see header) *)
-  | INoFuel.
-Arguments IOk {A}. Arguments ISigfpe {A}. Arguments IUnmodelled {A}. Arguments INoFuel {A}.
+  | INoFuel
+  | IOob (w : world).               (* array index out of bounds inside the evaluator: "Runtime Error", exit(1) of nanoc *)
+Arguments IOk {A}. Arguments ISigfpe {A}. Arguments IUnmodelled {A}. Arguments INoFuel {A}. Arguments IOob {A}.
 
 Definition ibind {A B} (r : ires A) (k : A -> world -> ires B) : ires B :=
-  match r with IOk a w => k a w | ISigfpe => ISigfpe | IUnmodelled => IUnmodelled | INoFuel => INoFuel end.
+  match r with IOk a w => k a w | ISigfpe => ISigfpe | IUnmodelled => IUnmodelled | INoFuel => INoFuel | IOob w => IOob w end.
 
 (* env_get_var: newest first *)
 Fixpoint ilookup (x : ident) (s : istack) : option (bool * value) :=
@@ -74,7 +81,7 @@ Definition set_index (idx : nat) (v : value) (s : istack) : istack :=
   if Nat.ltb idx (length s) then set_from_top (length s - 1 - idx) v s else s.
 
 Definition truthy (v : value) : bool :=
-  match v with VBool b => b | VInt z => negb (z =? 0) | VVoid => false | VStr _ => true end.
+  match v with VBool b => b | VInt z => negb (z =? 0) | VVoid => false | VStr _ => true | VArr _ => true end.
 
 Definition i_unop (o : unop) (v : value) : value :=
   match o, v with
@@ -113,6 +120,22 @@ Definition i_binop (o : binop) (a b : value) : ibin :=
   end.
 Definition of_ibin {A} (r : ibin) (w : world) (k : value -> world -> ires A) : ires A :=
   match r with BV v => k v w | BTrap => ISigfpe end.
+
+(* builtin_at / builtin_array_length once the arguments have values *)
+Definition i_at (va vi : value) (w : world) : ires value :=
+  match vi with
+  | VInt k =>
+      match va with
+      | VArr l => match arr_get l k with Some z => IOk (VInt z) w | None => IOob w end
+      | _ => IOk VVoid w
+      end
+  | _ => IOk VVoid w                                              (* "at() requires an integer index" *)
+  end.
+Definition i_len (va : value) : value :=
+  match va with VArr l => VInt (Z.of_nat (length l)) | _ => VVoid end.
+(* the array an evaluated literal becomes *)
+Definition i_arr (vs : list value) (w : world) : ires value :=
+  match ints_of vs with Some l => IOk (VArr l) w | None => IUnmodelled end.
 
 (* call_function / eval_call: parameters are pushed first to last *)
 Fixpoint push_params (ps : list (ident * ty)) (vs : list value) (s : istack) : option istack :=
@@ -173,6 +196,13 @@ Fixpoint ieval (fuel : nat) (e : expr) (w : world) {struct fuel} : ires value :=
                     | _ => IUnmodelled end)
               end
           end)
+    | EArr [] => IOk (VArr []) w
+    | EArr (a :: r) =>
+        (* the first element is evaluated once for its type, then every element (the first again) in order *)
+        ibind (ieval fuel' a w) (fun _ w0 => ibind (iargs_with (ieval fuel') (a :: r) w0) i_arr)
+    | EAt a i =>
+        ibind (ieval fuel' a w) (fun va w1 => ibind (ieval fuel' i w1) (fun vi w2 => i_at va vi w2))
+    | ELen a => ibind (ieval fuel' a w) (fun va w1 => IOk (i_len va) w1)
     end
   end
 with iexec (fuel : nat) (s : stmt) (w : world) {struct fuel} : ires ctl :=
